@@ -125,26 +125,22 @@ def apply_unified_diff(diff_text: str, read) -> dict:
         res = []
         pos = 0
         for (a, _al, _b, _bl), body in zip(heads, hunks):
+            lines = [ln for ln in body.split("\n")[1:] if not ln.startswith("\\")]
+            while lines and lines[-1] == "":
+                lines.pop()
+            old = [ln[1:] for ln in lines if ln.startswith((" ", "-")) or ln == ""]
+            new_ = [ln[1:] for ln in lines if ln.startswith((" ", "+")) or ln == ""]
             start = int(a) - 1
-            res += src[pos:start]
-            pos = start
-            for ln in body.split("\n")[1:]:
-                if ln.startswith("\\"):
-                    continue
-                if ln.startswith("+"):
-                    res.append(ln[1:])
-                elif ln.startswith("-"):
-                    if src[pos].rstrip("\r") != ln[1:].rstrip("\r"):
-                        raise AnalysisError(f"seeded patch does not apply to {rel} at line {pos + 1}")
-                    pos += 1
-                elif ln.startswith(" ") or ln == "":
-                    if pos < len(src) and (ln[1:] if ln else "") == src[pos]:
-                        res.append(src[pos])
-                        pos += 1
-                    elif ln == "":
-                        continue
-                    else:
-                        raise AnalysisError(f"seeded patch context mismatch in {rel} at line {pos + 1}")
+            found = None
+            for off in sorted(range(-40, 41), key=abs):
+                s0 = start + off
+                if s0 >= pos and src[s0 : s0 + len(old)] == old:
+                    found = s0
+                    break
+            if found is None:
+                raise AnalysisError(f"seeded patch does not apply to {rel} near line {start + 1}")
+            res += src[pos:found] + new_
+            pos = found + len(old)
         res += src[pos:]
         out[rel] = "\n".join(res)
     return out
